@@ -104,6 +104,7 @@ def _guess_model(s, timeout_ms):
     names = set()
     for a in s.assertions():
         symbols_of(a, names)
+    has_pi = "pi" in names
     names = sorted(n for n in names if n in hints)
     if not names:
         return None
@@ -116,7 +117,11 @@ def _guess_model(s, timeout_ms):
                     lo, hi = hints[n]
                     val = Fraction(int((lo + (hi - lo) * rng.random()) * 64), 64)
                     s.add(z3.Real(n) == z3.RealVal(str(val)))
-            s.set("timeout", max(300, min(1500, timeout_ms // 10)))
+            if has_pi:
+                # the symbolic constant pi is only known to lie in (3.1415926, 3.1415927): any value
+                # inside is a model of the abstraction (the replay on floats decides)
+                s.add(z3.Real("pi") == z3.RealVal("3.14159265"))
+            s.set("timeout", max(300, min(5000 if attempt == 0 else 1500, timeout_ms // 4)))
             if str(s.check()) == "sat":
                 return s.model()
         except z3.Z3Exception:
